@@ -19,12 +19,13 @@ def run(chk):
     if T:
         fast = vlib.build(SRC, 'fast')
         # every fixed-point latitude; Tile(zoom, Coordinates) at every zoom on every value, Tile(zoom, Location)
-        # at every zoom on every 16th value and at two zooms on the others (--sparse)
+        # at every zoom on every 16th value and at two zooms on the others, MercatorProjection functor
+        # round trip on every 4th value (--sparse)
         chk.absorb(vlib.run_sharded(fast, LAT_BLOCKS, chk.seed, chk.tier, ['--mode', 'lat', '--stride', 1, '--refevery', 64, '--sparse', 1],
                                     tag='c18a'), 'every-latitude-1.8e9(fast)')
         chk.absorb(vlib.run_sharded(fast, LON_BLOCKS, chk.seed, chk.tier, ['--mode', 'lon', '--stride', 16, '--refevery', 4],
                                     tag='c18b'), 'longitude-grid-stride16(fast)')
-    stride = 101 if T else 1009
+    stride = 251 if T else 1009
     chk.absorb(vlib.run_sharded(asan, LAT_BLOCKS, chk.seed, chk.tier, ['--mode', 'lat', '--stride', stride, '--refevery', 1], tag='c18c'),
                'latitude-strided(asan)')
     chk.absorb(vlib.run_sharded(asan, LON_BLOCKS, chk.seed, chk.tier, ['--mode', 'lon', '--stride', stride, '--refevery', 1], tag='c18d'),
@@ -44,7 +45,7 @@ def run(chk):
         'statement, a comparison with the exact tile near boundaries is informational only',
     ]
     return chk.finish('exploration',
-                      'fixed-point latitudes in blocks of 2^20 (thorough: every one of the 1 800 000 001 values under -O2 plus stride 101 under ASan; quick: random-offset '
+                      'fixed-point latitudes in blocks of 2^20 (thorough: every one of the 1 800 000 001 values under -O2 plus stride 251 under ASan; quick: random-offset '
                       'stride 1009) each with both neighbours, complete +-10^4 neighbourhoods of 0, +-78, +-85.05, +-MERCATOR_MAX_LAT, +-89.99, +-90 degrees; longitudes the '
                       'same way (thorough: stride 16) with neighbourhoods of 0, +-45, +-90, +-135, +-180; windows of 8 consecutive values across exact tile boundaries of '
                       'every zoom on both axes; random location pairs (east / south / south-east, boundary-heavy). Every point is evaluated at zoom 0..30. '
